@@ -136,7 +136,7 @@ def r_cv(db, rep):
         if not in_scope(f):
             continue
         for n in f.calls():
-            if callee_name(n) == "wait" and n.get("frec", "").startswith("std::condition_variable"):
+            if callee_name(n) in ("wait", "wait_for", "wait_until") and n.get("frec", "").startswith("std::condition_variable"):
                 waits.append((f, n))
     for f, n in sorted(waits, key=lambda x: (x[0].file, x[1].get("l", 0))):
         rep.visit(f)
@@ -145,14 +145,14 @@ def r_cv(db, rep):
         g = access_path(f, args[0]) if args else None
         M = C.ls(f).guards.get(g[1]) if g and g[0] == "local" else None
         rep.ob()
-        if len(args) < 2 or strip(args[-1])["k"] != "LambdaExpr":
+        if len(args) < 2 or not any(strip(a)["k"] == "LambdaExpr" for a in args):
             rep.viol("%s#wait-without-predicate" % f.qn, f.nloc(n),
                      "%s waits on %s without a predicate: a notification sent before the wait is lost" % (f.qn, loc_str(cvloc)), f.qn)
             continue
         if M is None:
             rep.viol("%s#wait-mutex" % f.qn, f.nloc(n), "cannot identify the mutex of the wait in %s" % f.qn, f.qn)
             continue
-        lam = db.funcs[strip(args[-1])["lambda"]]
+        lam = db.funcs[next(strip(a) for a in args if strip(a)["k"] == "LambdaExpr")["lambda"]]
         S = pred_reads(db, C, lam)
         rep.inst(f.nloc(n), "%s waits on %s with mutex %s; predicate reads %s" % (
             f.qn, loc_str(cvloc), loc_str(M), ", ".join(sorted(loc_str(l) for l in S))))
@@ -810,3 +810,54 @@ def r_lockorder(db, rep):
                          "%s takes %s then %s, but %s takes them in the opposite order: two threads can deadlock" % (
                              f.qn, loc_str(a), loc_str(b), g.qn), f.qn)
     rep.notes.append("lock order edges: " + ", ".join(sorted("%s->%s" % (loc_str(a), loc_str(b)) for a, b in order)))
+
+
+def _calls_in(cond, rec, name):
+    return [x for x in walk(cond) if x["k"] == "CXXMemberCallExpr" and callee_name(x) == name and x.get("frec") == rec]
+
+
+@rule("R-DRAIN", 2, "a worker leaves its loop only when it has observed both `stopped` and an empty queue: no queued task is "
+                    "dropped at shutdown and no worker retires while the pool is live")
+def r_drain(db, rep):
+    run = db.fn("Worker::run")
+    rep.visit(run)
+    loops = [n for n in run.live_nodes() if n["k"] in ("WhileStmt", "ForStmt", "DoStmt")]
+    outer = [l for l in loops if not any(a["k"] in ("WhileStmt", "ForStmt", "DoStmt") for a in run.ancestors(l))]
+    if len(outer) != 1:
+        raise AnalysisBroken("Worker::run: expected exactly one top-level worker loop, found %d" % len(outer))
+    loop = outer[0]
+    exits = []
+    if loop.get("cond") is not None:
+        exits.append(("the loop condition", loop, implied_atoms(loop["cond"], False)))
+    for n in walk(loop["body"]):
+        if n["k"] in ("BreakStmt", "ReturnStmt"):
+            # breaks of nested loops do not leave the worker loop
+            inner = False
+            for a in run.ancestors(n):
+                if a is loop:
+                    break
+                if a["k"] in ("WhileStmt", "ForStmt", "DoStmt", "SwitchStmt") and n["k"] == "BreakStmt":
+                    inner = True
+            if not inner:
+                exits.append(("the %s at line %s" % ("break" if n["k"] == "BreakStmt" else "return", n.get("l")), n, run.cfg.guards(n)))
+    for what, node, atoms in exits:
+        rep.inst(run.nloc(node), "Worker::run can leave its loop through %s" % what)
+        knows_stopped = knows_empty = False
+        for c, pol in atoms:
+            if c is None:
+                continue
+            sc = strip(c)
+            if sc["k"] == "CXXMemberCallExpr" and callee_name(sc) == "stopped" and pol:
+                knows_stopped = True
+            if sc["k"] == "CXXMemberCallExpr" and callee_name(sc) == "empty" and sc.get("frec") == "WorkerQueue" and pol:
+                knows_empty = True
+        rep.ob()
+        if not knows_empty:
+            rep.viol("Worker::run#exit-with-queued-tasks:%s" % what.split(" at ")[0].replace(" ", "-"), run.nloc(node),
+                     "Worker::run leaves its loop through %s without having observed an empty queue: tasks queued before "
+                     "stop_all_workers are dropped" % what, run.qn)
+        rep.ob()
+        if not knows_stopped:
+            rep.viol("Worker::run#exit-while-live:%s" % what.split(" at ")[0].replace(" ", "-"), run.nloc(node),
+                     "Worker::run leaves its loop through %s without having observed the stop flag: the worker retires while the pool "
+                     "is live and later tasks never run" % what, run.qn)
